@@ -123,7 +123,7 @@ def pipeline(ctx, replay_case=None):
     ctx.assumptions.append("phase labels in signatures assume archive/zip buffers 4096 bytes and compress/flate holds back at most ~64 KiB")
     pre = "q-" if q else "t-"
     # every scenario of the tier's groups (SaveIO_MC.tla, AllGroups), enumerated breadth-first ...
-    cases = ctx.tlc_gen("SaveIO_MC.tla", gencfg(ctx, "gen_bfs.cfg", [pre + g for g in GROUPS + ([] if q else ["sweep-huge"])]), "bfs")
+    cases = ctx.tlc_gen("SaveIO_MC.tla", gencfg(ctx, "gen_bfs.cfg", [pre + g for g in GROUPS + ([] if q else ["sweep-huge", "opened-odd"])]), "bfs")
     # ... plus seeded random longer documents, swept
     rnd = ctx.tlc_gen("SaveIO_MC.tla", gencfg(ctx, "gen_sim.cfg", [pre + "random"]), "sim", mode="sim",
                       num=3 if q else 12, depth=12, limit=12 if q else 80)
